@@ -24,6 +24,11 @@ def _basis_arg(kind, spelled):
     return GenerationBasis[kind] if spelled == 'enum' else spelled
 
 
+def _bas(src):
+    """keyword for the basis; spelled 'default' = not passed at all (the documented default is XAIG)"""
+    return {} if src['spelled'] == 'default' else {'basis': _basis_arg(src['basis'], src['spelled'])}
+
+
 def design(tier, seed):
     from .. import tlc
 
@@ -107,6 +112,13 @@ def sources(tier, seed, ctx):
     for n in ([1, 2, 3, 4, 5, 7, 9, 10, 16, 18, 31, 33, 34, 47, 64, 70] if tier == 'quick' else list(range(1, 71))):
         for k in ('XAIG', 'AIG'):     # both bases for every operand count (the trailing 1-2 bits take their own path)
             srcs.append({'fn': 'add_sum_pow2_m1', 'n': n, 'basis': k, 'spelled': rng.choice(SPELL[k]), 'big': bool(n % 2), 'host': None})
+    # every fourth XAIG call does not pass the basis at all (the documented default is XAIG)
+    k4 = 0
+    for s_ in srcs:
+        if s_.get('basis') == 'XAIG':
+            k4 += 1
+            if k4 % 4 == 0:
+                s_['spelled'] = 'default'
     # a third of the little-endian calls do not pass big_endian at all (the documented default is little-endian)
     for j, s_ in enumerate(srcs):
         if s_.get('big') is False and j % 3 == 0:
@@ -129,7 +141,7 @@ def record(src):
     try:
         if fn == 'generate_sum_n_bits':
             n, big = src['n'], src['big']
-            c = ar.generate_sum_n_bits(n, basis=_basis_arg(src['basis'], src['spelled']), **A.bkw(big))
+            c = ar.generate_sum_n_bits(n, **_bas(src), **A.bkw(big))
             pre = {'g': {l: {'t': 'INPUT', 'o': []} for l in c.inputs}, 'ord': list(c.inputs), 'i': list(c.inputs), 'o': [], 'u': {}, 'b': {}}
             res = list(c.outputs)
             out = A.le(res, big)
@@ -142,7 +154,7 @@ def record(src):
             n, big = src['n'], src['big']
             c, ops = A.make_host(src, n)
             pre = project(c)
-            res = ar.add_sum_n_bits(c, list(ops), basis=_basis_arg(src['basis'], src['spelled']), **A.bkw(big))
+            res = ar.add_sum_n_bits(c, list(ops), **_bas(src), **A.bkw(big))
             out = A.le(res, big)
             m = len(res)
             checks = [{'op': 'wsum', 'ins': [[0, l] for l in ops], 'outs': [[j, l] for j, l in enumerate(out)]}]
@@ -163,10 +175,10 @@ def record(src):
         if fn.startswith('generate_wsum') or fn.startswith('add_wsum'):
             ws = src['weights']
             n = len(ws)
-            b = _basis_arg(src['basis'], src['spelled'])
+            bk = _bas(src)
             eff = fn.endswith('efficient')
             if fn.startswith('generate'):
-                c = (ar.generate_sum_weighted_bits_efficient if eff else ar.generate_sum_weighted_bits_naive)(ws, basis=b)
+                c = (ar.generate_sum_weighted_bits_efficient if eff else ar.generate_sum_weighted_bits_naive)(ws, **bk)
                 pre = {'g': {l: {'t': 'INPUT', 'o': []} for l in c.inputs}, 'ord': list(c.inputs), 'i': list(c.inputs), 'o': [], 'u': {}, 'b': {}}
                 ins = [[ws[j], c.inputs[j]] for j in range(n)]
                 labels = list(c.outputs)
@@ -175,7 +187,7 @@ def record(src):
                 # add_* form on the same weights is recorded instead for the identity and this
                 # call is judged on interface, basis and bound.
                 c2, ops2 = A.make_host({'host': None}, n)
-                res2 = (ar.add_sum_n_weighted_bits if eff else ar.add_sum_n_weighted_bits_naive)(c2, [(ws[j], ops2[j]) for j in range(n)], basis=b)
+                res2 = (ar.add_sum_n_weighted_bits if eff else ar.add_sum_n_weighted_bits_naive)(c2, [(ws[j], ops2[j]) for j in range(n)], **bk)
                 same_shape = len(res2) == len(labels)
                 checks = []
                 if same_shape:
@@ -186,7 +198,7 @@ def record(src):
                 return A.finish(case, c, pre, rng, labels, checks, 'set', labels, src['basis'], bound)
             c, ops = A.make_host(src, n)
             pre = project(c)
-            res = (ar.add_sum_n_weighted_bits if eff else ar.add_sum_n_weighted_bits_naive)(c, [(ws[j], ops[j]) for j in range(n)], basis=b)
+            res = (ar.add_sum_n_weighted_bits if eff else ar.add_sum_n_weighted_bits_naive)(c, [(ws[j], ops[j]) for j in range(n)], **bk)
             ins = [[ws[j], ops[j]] for j in range(n)]
             outs = [[int(lv), lab] for lv, lab in res]
             m = len(res)
@@ -226,7 +238,7 @@ def record(src):
             n, big = src['n'], src['big']
             c, ops = A.make_host(src, n)
             pre = project(c)
-            res = ar.add_sum_pow2_m1(c, list(ops), **A.bkw(big), basis=_basis_arg(src['basis'], src['spelled']))
+            res = ar.add_sum_pow2_m1(c, list(ops), **A.bkw(big), **_bas(src))
             outs = [[lvl, lab] for lvl, labs in enumerate(res) for lab in labs]
             checks = [{'op': 'wsum_multi', 'ins': [[0, l] for l in ops], 'outs': outs}]
             return A.finish(case, c, pre, rng, [l for _, l in outs], checks, 'same', [], src['basis'])
